@@ -123,6 +123,43 @@ Proof.
   - apply IH; [inversion Ha | inversion Hc]; auto.
 Qed.
 
+(* random=True: ANY order list (in particular every permutation numpy can draw), block i
+   always taken with its own right-hand side and relaxation parameter *)
+Theorem kaczmarz_order_distance (blocks : list kblock) xs :
+  Forall kadm blocks -> Forall (fun b => kA b xs = kb b) blocks ->
+  forall (order : list nat) x, dist2 xs (kz_sweep_order X (map kstep blocks) order x) <= dist2 xs x.
+Proof.
+  intros Ha Hc order. unfold kz_sweep_order.
+  assert (Hnth : forall i x, dist2 xs (nth i (map kstep blocks) (fun y => y) x) <= dist2 xs x).
+  { clear order. induction blocks as [|b bs IHb]; intros i x.
+    - destruct i; cbn; lra.
+    - destruct i as [|i]; cbn [map nth].
+      + apply kstep_nonexp; [inversion Ha | inversion Hc]; auto.
+      + apply IHb; [inversion Ha | inversion Hc]; auto. }
+  induction order as [|i order IH]; intros x; cbn [fold_left]; [lra|].
+  eapply Rle_trans; [apply IH | apply Hnth].
+Qed.
+
+Theorem kaczmarz_random_all (blocks : list kblock) xs :
+  Forall kadm blocks -> Forall (fun b => kA b xs = kb b) blocks ->
+  forall (orders : list (list nat)) x,
+  nonincr (dist2 xs) x (kz_run_orders X (map kstep blocks) orders x).
+Proof.
+  intros Ha Hc orders; induction orders as [|o orders IH]; intros x; cbn [kz_run_orders nonincr]; auto.
+  split; [apply kaczmarz_order_distance; auto | apply IH].
+Qed.
+(* also after every single block step (callback_loop='inner') *)
+Theorem kaczmarz_block_step_distance (blocks : list kblock) xs :
+  Forall kadm blocks -> Forall (fun b => kA b xs = kb b) blocks ->
+  forall i x, dist2 xs (nth i (map kstep blocks) (fun y => y) x) <= dist2 xs x.
+Proof.
+  intros Ha Hc. induction blocks as [|b bs IHb]; intros i x.
+  - destruct i; cbn; lra.
+  - destruct i as [|i]; cbn [map nth].
+    + apply kstep_nonexp; [inversion Ha | inversion Hc]; auto.
+    + apply IHb; [inversion Ha | inversion Hc]; auto.
+Qed.
+
 Theorem kaczmarz_all (blocks : list kblock) xs :
   Forall kadm blocks -> Forall (fun b => kA b xs = kb b) blocks ->
   forall n x, nonincr (dist2 xs) x (trace (kz_sweep X (map kstep blocks)) n x).
